@@ -12,3 +12,6 @@ package token
 // The keyword table is filled once by the package initialiser and never written again: it maps
 // words to keyword token types only.
 //@ ginv @C14 keywords.kinds: token.keywords != nil && forall k string :: has(token.keywords, k) ==> token.keywords[k] != token.SLASH && token.keywords[k] != token.SLASHEQUALS && token.keywords[k] != token.REGEXP && token.keywords[k] != token.EOF && token.keywords[k] != token.ILLEGAL
+
+//@ func (t Token) Position() (result string)
+//@   panics never
